@@ -108,6 +108,16 @@ pub fn order_independence(tag: &str, seed: u64, i: u64, l: &mut Local) {
         qs.push(Q::Rank(pn, 0.5, k, level));
     }
     qs.push(Q::Prop(pn, pk, Kind::Two, level2));
+    // (d) levels that differ by less than any sensible tolerance (a memo with an approximate key):
+    // huge counts make a 1e-7 change of the level move a rank / change the bits of a bound
+    for dl in [1e-7, -3e-7] {
+        let near = level + dl;
+        qs.push(Q::Rank(1_000_000_000_000, 0.5, Kind::Two, near));
+        qs.push(Q::Prop(1_000_000_000_000, 400_000_000_000, Kind::Upper, near));
+        qs.push(Q::Arith(st, Kind::Two, near));
+    }
+    qs.push(Q::Rank(1_000_000_000_000, 0.5, Kind::Two, level));
+    qs.push(Q::Prop(1_000_000_000_000, 400_000_000_000, Kind::Upper, level));
     let m = qs.len();
     // reference: every query on a fresh thread of its own (no thread-local history)
     let fresh: Vec<String> = qs
